@@ -11,6 +11,7 @@ EXPLANATION = (
     "attachments on nodes and on edges, all iteration sources are ordered maps; (R4) the columnar builder sorts nodes and "
     "edges by id and the validator keeps its ordering/range/tag rejections. Injectivity and write/read equality as "
     "values are NOT decided."
+    ' Every attachment row of the columnar build appends to ONE blob arena (offsets are relative to the arena that is written).'
 )
 ASSUMPTIONS = ["BLAKE3 collision resistance", "BTreeMap/BTreeSet iterate in key order"]
 FLOOR = 45
